@@ -325,6 +325,15 @@ def cases(tier='quick', families=None):
                                              Member('z', tagged(Type('NULL'), (2, 5, None)))])),
             Member('s', tagged(Type('OCTET STRING'), (2, 0, None))), Member('t', tagged(Type('BOOLEAN'), (2, 4, None)))])))
         out.append(Case('S5', 'seq_uchoice3', 'EXPLICIT', Type('SEQUENCE', root=[Member('f', Type('OCTET STRING')), Member('u', _uch3())])))
+        # identifiers that are prefixes of one another (and of the XER value tags true/false), the longer one first: name matching by
+        # prefix is the shortcut to guard
+        out.append(Case('S5', 'prefixnames/SEQUENCE', 'AUTOMATIC', Type('SEQUENCE', root=[
+            Member('nameSuffix', Type('INTEGER'), optional=True), Member('name', Type('BOOLEAN')), Member('trueColor', Type('BOOLEAN')),
+            Member('falsePositive', Type('BOOLEAN'), optional=True), Member('n', Type('NULL'), optional=True)])))
+        out.append(Case('S5', 'prefixnames/CHOICE', 'AUTOMATIC', Type('CHOICE', root=[
+            Member('counter64', Type('INTEGER')), Member('counter', Type('INTEGER', cons=Cons(0, 7))), Member('c', Type('BOOLEAN'))])))
+        out.append(Case('S5', 'prefixnames/SET', 'AUTOMATIC', Type('SET', root=[
+            Member('abc', Type('INTEGER'), optional=True), Member('ab', Type('BOOLEAN')), Member('a', Type('OCTET STRING'), optional=True)])))
     # ---- S6: wire-boundary shapes
     if fam('S6'):
         tagnums = [30, 31, 127, 128, 16383, 16384, (1 << 21) - 1, 1 << 28, (1 << 30) - 1]
